@@ -142,19 +142,23 @@ func VerifH_params() {
 			}
 		}
 	case 4:
-		num := -1
+		num, valid := 0, true
 		switch v1 {
-		case "ZERO", "0":
+		case "ZERO":
 			num = 0
-		case "ONE", "1":
+		case "ONE":
 			num = 1
-		case "TWO", "2":
+		case "TWO":
 			num = 2
+		default:
+			num, valid = refJSONInt(v1)
 		}
-		if num >= 0 {
+		if valid {
 			vfCheck(err == nil && int(msg.vals["e"].Enum()) == num, "enum query parameter not converted to its number")
 			vfCover("enum")
-		} else if err != nil {
+		} else {
+			// neither a value name nor a JSON integer (e.g. "+1", "01", "1x")
+			vfCheck(err != nil, "text that is neither an enum value name nor a JSON integer was accepted for an enum field")
 			vfCover("enum-rejected")
 		}
 	case 5:
@@ -177,10 +181,43 @@ func VerifH_params() {
 		vfCheck(msg.sets == 0, "unknown query parameter modified the message")
 		vfCover("unknown-key")
 	default:
-		if err == nil {
+		if jn, ok := refJSONInt(v1); ok {
+			vfCheck(err == nil && int(msg.vals["i"].Int()) == jn, "int32 query parameter not converted to its value")
 			vfCover("int32")
 		} else {
+			vfCheck(err != nil, "text that is not a JSON integer was accepted for an int32 field")
 			vfCover("int32-rejected")
 		}
 	}
+}
+
+// refJSONInt: the JSON number grammar restricted to integers (optional '-', no leading zeros, no
+// '+', no fraction / exponent), for texts short enough to fit int32; surrounding JSON whitespace
+// is allowed.
+func refJSONInt(s string) (int, bool) {
+	for len(s) > 0 && (s[0] == ' ' || s[0] == '\t' || s[0] == '\n' || s[0] == '\r') {
+		s = s[1:]
+	}
+	for len(s) > 0 && (s[len(s)-1] == ' ' || s[len(s)-1] == '\t' || s[len(s)-1] == '\n' || s[len(s)-1] == '\r') {
+		s = s[:len(s)-1]
+	}
+	neg := false
+	if len(s) > 0 && s[0] == '-' {
+		neg = true
+		s = s[1:]
+	}
+	if len(s) == 0 || len(s) > 9 || (len(s) > 1 && s[0] == '0') {
+		return 0, false
+	}
+	v := 0
+	for i := 0; i < len(s); i++ {
+		if s[i] < '0' || s[i] > '9' {
+			return 0, false
+		}
+		v = v*10 + int(s[i]-'0')
+	}
+	if neg {
+		v = -v
+	}
+	return v, true
 }
